@@ -17,6 +17,7 @@ RULE = (
     "integer dtype and bool with labels up to the dtype extremes, present and absent labels, python int / numpy scalar / "
     "list (1..4 labels) selections; a few large volumes checked against exact integer counts. Non-trivial = both selected "
     "voxel sets non-empty; distinct = hash of (arrays, dtype, selection)."
+    ' Further families: non-contiguous and mixed layouts, long lists of widely spread labels, the same array objects rescored after an in-place edit, absent labels outside the dtype range and negative ones, floating point label maps with fractional label values.'
 )
 ASSUMPTIONS = [
     "without label selection the arrays are masks (bool or 0/1)",
